@@ -1997,3 +1997,264 @@ Proof.
   pose proof (v2_store_prefix_ok f s d (length (v2_store_writes f s d)) HW Hs Hd Hm Hg) as H. cbv zeta in H.
   now rewrite firstn_all in H.
 Qed.
+
+(* ================================================================================================ *)
+(* Part 7: a v1 store that fails part-way.  Program order of BundleV1.store_tiles for one tile: the record    *)
+(* (size, data) is appended to the .bundle and reaches the file at the seek(0) of append_tile; the header is     *)
+(* rewritten; the index entry is written to the .bundlx.  The index file is closed before the data file, so the  *)
+(* raw order is record, index entry, header: the theorem covers every combination in which the index entry is     *)
+(* written only after the complete record (header written or not), and the appended bytes cut short anywhere.     *)
+
+Lemma v1_Inv_weak st : v1_Inv st -> v1_WInv st.
+Proof.
+  intros [G [Hbi [Hbd [Hli [Hent [H5 [H4 _]]]]]]]. unfold v1_WInv. splits; auto. lia.
+Qed.
+
+Lemma v1_load_rec_w st s : v1_WInv st -> slot_ok s ->
+  v1_load st s = match v1_rec st s with Some (_, d) => RData d | None => RMissing end.
+Proof.
+  intros [_ [Hbi [Hbd [Hli [Hent _]]]]] Hs. destruct st as [idx dat]. cbn [fst snd] in *.
+  destruct (v1_ioff_range s Hs) as [I1 I2].
+  unfold v1_load, v1_tile_offset, v1_entry_bytes. rewrite brdnum_some by (rewrite Hli; unfold X1; change (Z.of_nat 5) with 5; lia).
+  unfold v1_rec. cbn [fst snd]. specialize (Hent s Hs). cbv zeta in Hent.
+  set (off := brd idx (v1_ioff s) 5) in *.
+  destruct (off =? 0) eqn:E0; [reflexivity|]. destruct Hent as [?|[H60 Hin]]; [lia|].
+  pose proof (brd_bound dat off 4 Hbd) as Hn. rewrite pow4 in Hn.
+  rewrite brdnum_some by (change (Z.of_nat 4) with 4; lia).
+  set (n := brd dat off 4) in *.
+  destruct (n =? 0) eqn:En.
+  - destruct (n <=? 0) eqn:E1; [reflexivity|lia].
+  - destruct (n <=? 0) eqn:E1; [lia|]. rewrite breadz_full by lia.
+    destruct (bread dat (off + 4) (Z.to_nat n)) eqn:Eb; [apply bread_nil_iff in Eb; lia|reflexivity].
+Qed.
+
+(* a change of the data file that leaves everything between the header and the old end alone *)
+Lemma v1_dat_frame_w idx dat dat' : v1_WInv (idx, dat) -> blen dat <= blen dat' -> bytes_ok dat' ->
+  (forall o n, 60 <= o -> o + Z.of_nat n <= blen dat -> bread dat' o n = bread dat o n) ->
+  brd dat' 24 8 <= blen dat' -> brd dat' 16 8 <= blen dat' ->
+  v1_WInv (idx, dat') /\ forall s, slot_ok s -> v1_rec (idx, dat') s = v1_rec (idx, dat) s.
+Proof.
+  intros [[G1 [G2 [G3 G4]]] [Hbi [Hbd [Hli [Hent [H5 H4]]]]]] Hl Hbd' F H5' H4'. unfold v1_dlen in *. cbn [fst snd] in *.
+  assert (Hsz : forall s, slot_ok s -> brd idx (v1_ioff s) 5 <> 0 ->
+            brd dat' (brd idx (v1_ioff s) 5) 4 = brd dat (brd idx (v1_ioff s) 5) 4).
+  { intros s Hs Hne. destruct (Hent s Hs) as [?|[H60 Hin]]; [contradiction|].
+    pose proof (brd_bound dat (brd idx (v1_ioff s) 5) 4 Hbd) as Hn. rewrite pow4 in Hn.
+    set (off := brd idx (v1_ioff s) 5) in *. unfold brd. rewrite F; [reflexivity|lia|change (Z.of_nat 4) with 4; lia]. }
+  assert (Hrec : forall s, slot_ok s -> v1_rec (idx, dat') s = v1_rec (idx, dat) s).
+  { intros s Hs. unfold v1_rec. cbn [fst snd]. destruct (brd idx (v1_ioff s) 5 =? 0) eqn:E0; [reflexivity|].
+    rewrite Hsz by (assumption || lia). destruct (Hent s Hs) as [?|[H60 Hin]]; [lia|].
+    pose proof (brd_bound dat (brd idx (v1_ioff s) 5) 4 Hbd) as Hn. rewrite pow4 in Hn.
+    set (off := brd idx (v1_ioff s) 5) in *. destruct (brd dat off 4 =? 0) eqn:E1; [reflexivity|].
+    f_equal. f_equal. apply F; lia. }
+  split; [|exact Hrec]. unfold v1_WInv, v1_dlen. cbn [fst snd]. splits; auto.
+  - unfold GInv, v1_dlen. cbn [snd]. split; [lia|]. split; [|split].
+    + intros s a d Hs H. rewrite Hrec in H by assumption. destruct (G2 s a d Hs H) as [? [? [? ?]]]. repeat split; auto; lia.
+    + intros s s' a d a' d' Hs Hs' Hne H H'. rewrite Hrec in H, H' by assumption. exact (G3 s s' a d a' d' Hs Hs' Hne H H').
+    + unfold g_live_sum in *. rewrite (sum_on_ext v1st v1_rec (idx, dat) (idx, dat') all_slots); [lia|].
+      intros s Hs. apply Hrec. now apply in_all_slots.
+  - intros s Hs. cbv zeta. destruct (Hent s Hs) as [H0|[H60 Hin]]; [left; exact H0|right].
+    split; [exact H60|]. rewrite Hsz by (assumption || lia). lia.
+Qed.
+
+(* the index entry is written when the complete record is in the data file *)
+Lemma v1_entry_w idx dat s d e :
+  v1_WInv (idx, dat) -> slot_ok s -> bytes_okl d -> zlen d < two32 -> e + 4 + zlen d < two40 ->
+  blen dat = e + 4 + zlen d -> brd dat e 4 = zlen d -> bread dat (e + 4) (length d) = d ->
+  B1 <= e -> B1 + g_live_sum v1st v1_rec (idx, dat) <= e ->
+  (forall s' a d', slot_ok s' -> v1_rec (idx, dat) s' = Some (a, d') -> a + 4 + zlen d' <= e) ->
+  let idx' := bwrite idx (v1_ioff s) (le 5 e) in
+  v1_WInv (idx', dat) /\ v1_rec (idx', dat) s = (if zlen d =? 0 then None else Some (e, d)) /\
+  forall s', slot_ok s' -> s' <> s -> v1_rec (idx', dat) s' = v1_rec (idx, dat) s'.
+Proof.
+  intros [[G1 [G2 [G3 G4]]] [Hbi [Hbd [Hli [Hent [H5 H4]]]]]] Hs Hd Hm Hg Hl Hsz Hdat He Hsum Hbelow. cbv zeta. set (idx' := bwrite idx (v1_ioff s) (le 5 e)).
+  unfold v1_dlen in *. cbn [fst snd] in *. pose proof (zlen_nonneg d) as Hz. destruct (v1_ioff_range s Hs) as [I1 I2].
+  assert (HB1 : B1 = 65596) by reflexivity. assert (HX1 : X1 = 81952) by reflexivity. assert (T40 : two40 = 1099511627776) by reflexivity.
+  set (size := zlen d) in *.
+  assert (Li : blen idx' = X1) by (unfold idx'; rewrite blen_bwrite, zlen_le, Hli; change (Z.of_nat 5) with 5; lia).
+  assert (Fi : forall o n, o + Z.of_nat n <= v1_ioff s \/ v1_ioff s + 5 <= o -> bread idx' o n = bread idx o n).
+  { intros o n H. unfold idx'. apply bread_bwrite_out; [lia|rewrite zlen_le; change (Z.of_nat 5) with 5; lia]. }
+  assert (Hent' : brd idx' (v1_ioff s) 5 = e) by (unfold idx'; apply brd_bwrite_same; [lia|rewrite pow5; lia]).
+  assert (Hev : forall s', slot_ok s' -> s' <> s -> brd idx' (v1_ioff s') 5 = brd idx (v1_ioff s') 5).
+  { intros s' Hs' Hne. destruct (v1_ioff_range s' Hs') as [J1 J2].
+    pose proof (v1_ioff_disj s s' Hs Hs' (fun H => Hne (eq_sym H))) as Hdis.
+    unfold brd. rewrite Fi by (change (Z.of_nat 5) with 5; lia). reflexivity. }
+  assert (Hself : v1_rec (idx', dat) s = (if size =? 0 then None else Some (e, d))).
+  { unfold v1_rec. cbn [fst snd]. rewrite Hent', Hsz. destruct (e =? 0) eqn:Ee; [lia|].
+    destruct (size =? 0) eqn:Es; [reflexivity|]. f_equal. f_equal.
+    replace (Z.to_nat size) with (length d) by (unfold size, zlen; lia). exact Hdat. }
+  assert (Hother : forall s', slot_ok s' -> s' <> s -> v1_rec (idx', dat) s' = v1_rec (idx, dat) s').
+  { intros s' Hs' Hne. unfold v1_rec. cbn [fst snd]. now rewrite Hev. }
+  split; [|split; [exact Hself|exact Hother]].
+  unfold v1_WInv, v1_dlen. cbn [fst snd]. splits; auto.
+  - unfold GInv, v1_dlen. cbn [snd]. split; [lia|]. split; [|split].
+    + intros s0 a d0 Hs0 H. destruct (slot_eq_dec s0 s) as [->|Hne].
+      * rewrite Hself in H. destruct (size =? 0) eqn:Es; [discriminate|]. inversion H; subst a d0. repeat split; auto; lia.
+      * rewrite Hother in H by assumption. exact (G2 s0 a d0 Hs0 H).
+    + intros s1 s2 a1 d1 a2 d2 Hs1 Hs2 Hne R1 R2.
+      destruct (slot_eq_dec s1 s) as [->|N1]; destruct (slot_eq_dec s2 s) as [->|N2]; try congruence.
+      * rewrite Hself in R1. destruct (size =? 0); [discriminate|]. inversion R1; subst a1 d1.
+        rewrite Hother in R2 by assumption. pose proof (Hbelow s2 a2 d2 Hs2 R2). lia.
+      * rewrite Hself in R2. destruct (size =? 0); [discriminate|]. inversion R2; subst a2 d2.
+        rewrite Hother in R1 by assumption. pose proof (Hbelow s1 a1 d1 Hs1 R1). lia.
+      * rewrite Hother in R1, R2 by assumption. exact (G3 s1 s2 a1 d1 a2 d2 Hs1 Hs2 Hne R1 R2).
+    + unfold g_live_sum in *. rewrite (sum_on_update' v1_rec (idx, dat) (idx', dat) all_slots s).
+      * rewrite Hself. assert (0 <= rec_len (v1_rec (idx, dat) s)) by (destruct (v1_rec (idx, dat) s) as [[? dd]|]; cbn [rec_len]; [pose proof (zlen_nonneg dd)|]; lia).
+        destruct (size =? 0); cbn [rec_len]; fold size; lia.
+      * apply NoDup_all_slots.
+      * now apply in_all_slots.
+      * intros s' Hs' Hne. apply Hother; [now apply in_all_slots|exact Hne].
+  - unfold idx'. apply bytes_ok_bwrite; [assumption|apply le_bytes|lia].
+  - intros s' Hs'. cbv zeta. destruct (slot_eq_dec s' s) as [->|Hne].
+    + right. rewrite Hent', Hsz. lia.
+    + rewrite Hev by assumption. apply (Hent s' Hs').
+Qed.
+
+(* the model's store from a weakly valid state: what it writes *)
+Lemma v1_store_shape idx dat s d :
+  v1_WInv (idx, dat) -> slot_ok s -> bytes_okl d -> zlen d < two32 -> blen dat + 4 + zlen d < two40 ->
+  let e := blen dat in
+  let dat2 := bwrite (bwrite dat e (le 4 (zlen d))) (e + 4) d in
+  exists hb, zlen hb = 60 /\ bytes_okl hb /\
+    v1_store1 (idx, dat) s d = Some (bwrite idx (v1_ioff s) (le 5 e), bwrite dat2 0 hb) /\
+    brd (bwrite dat2 0 hb) 24 8 = brd dat 24 8 + zlen d + 4 /\
+    brd (bwrite dat2 0 hb) 16 8 <= brd dat 16 8 + 4.
+Proof.
+  intros [[G1 _] [Hbi [Hbd [Hli [Hent [H5 H4]]]]]] Hs Hd Hm Hg. unfold v1_dlen in *. cbn [fst snd] in *. cbv zeta.
+  pose proof (zlen_nonneg d) as Hz. destruct (v1_ioff_range s Hs) as [I1 I2].
+  set (e := blen dat) in *. set (size := zlen d) in *.
+  assert (HB1 : B1 = 65596) by reflexivity. assert (HX1 : X1 = 81952) by reflexivity.
+  assert (T40 : two40 = 1099511627776) by reflexivity. assert (T32 : two32 = 4294967296) by reflexivity.
+  assert (T64 : two64 = 18446744073709551616) by reflexivity.
+  unfold v1_store1, v1_tile_offset, v1_entry_bytes, v1_entry_write_bytes.
+  rewrite brdnum_some by (rewrite Hli; change (Z.of_nat 5) with 5; lia).
+  set (prev := brd idx (v1_ioff s) 5).
+  assert (Hnew : exists b, (if prev =? 0 then Some true
+                            else match brdnum dat prev 4 with None => None | Some n => Some (negb (0 <? n)) end) = Some b).
+  { destruct (prev =? 0) eqn:E0; [eexists; reflexivity|].
+    unfold prev in *. destruct (Hent s Hs) as [H|[H60 Hin]]; [lia|].
+    pose proof (brd_bound dat (brd idx (v1_ioff s) 5) 4 Hbd). rewrite brdnum_some by (change (Z.of_nat 4) with 4; fold e; lia).
+    eexists; reflexivity. }
+  destruct Hnew as [is_new Hnew]. rewrite Hnew. fold size. fold e.
+  destruct (e =? 0) eqn:Ee; [lia|]. destruct (two32 <=? size) eqn:E32; [lia|]. clear Ee E32.
+  set (dat1 := bwrite dat e (le 4 size)). set (dat2 := bwrite dat1 (e + 4) d).
+  assert (L1 : blen dat1 = e + 4) by (unfold dat1; rewrite blen_bwrite, zlen_le; fold e; lia).
+  assert (L2 : blen dat2 = e + 4 + size) by (unfold dat2; rewrite blen_bwrite, L1; fold size; lia).
+  assert (F2 : forall o n, o + Z.of_nat n <= e -> bread dat2 o n = bread dat o n).
+  { intros o n Hn. unfold dat2, dat1. rewrite bread_bwrite_out by (fold dat1; fold size; lia).
+    rewrite bread_bwrite_out by (rewrite ?zlen_le; fold e; lia). reflexivity. }
+  unfold v1_hdr_unpack. destruct (60 <=? blen dat2) eqn:E60; [|lia]. clear E60.
+  assert (R : forall o n, o + Z.of_nat n <= e -> brd dat2 o n = brd dat o n) by (intros; unfold brd; now rewrite F2).
+  rewrite !R by (cbn; lia).
+  pose proof (brd_bound dat 0 4 Hbd) as B0. pose proof (brd_bound dat 4 4 Hbd) as B1'. pose proof (brd_bound dat 8 4 Hbd) as B2'.
+  pose proof (brd_bound dat 12 4 Hbd) as B3. pose proof (brd_bound dat 16 8 Hbd) as B4. pose proof (brd_bound dat 32 8 Hbd) as B6.
+  pose proof (brd_bound dat 40 4 Hbd) as B7. pose proof (brd_bound dat 44 4 Hbd) as B8. pose proof (brd_bound dat 48 4 Hbd) as B9.
+  pose proof (brd_bound dat 52 4 Hbd) as B10. pose proof (brd_bound dat 56 4 Hbd) as B11. pose proof (brd_bound dat 24 8 Hbd) as B5.
+  rewrite pow4 in *. rewrite pow8 in *.
+  set (h4' := if is_new then brd dat 16 8 + 4 else brd dat 16 8).
+  assert (Hh4 : 0 <= h4' <= brd dat 16 8 + 4) by (unfold h4'; destruct is_new; lia).
+  rewrite v1_hdr_pack_some by lia.
+  set (hb := le 4 (brd dat 0 4) ++ le 4 (brd dat 4 4) ++ le 4 (Z.max (brd dat 8 4) size) ++ le 4 (brd dat 12 4) ++
+             le 8 h4' ++ le 8 (brd dat 24 8 + size + 4) ++ le 8 (brd dat 32 8) ++ le 4 (brd dat 40 4) ++
+             le 4 (brd dat 44 4) ++ le 4 (brd dat 48 4) ++ le 4 (brd dat 52 4) ++ le 4 (brd dat 56 4)).
+  exists hb. splits.
+  - unfold hb; rewrite !zlen_app, !zlen_le; reflexivity.
+  - unfold hb; repeat apply bytes_okl_app; apply le_bytes.
+  - reflexivity.
+  - unfold hb. rewrite app5. apply brd_bwrite_mid'; [lia|rewrite pow8; lia|rewrite !zlen_app, !zlen_le; reflexivity].
+  - replace (brd (bwrite dat2 0 hb) 16 8) with h4'; [lia|]. symmetry.
+    unfold hb. rewrite app4. apply brd_bwrite_mid'; [lia|rewrite pow8; lia|rewrite !zlen_app, !zlen_le; reflexivity].
+Qed.
+
+(* every state a failed store can leave: the record appended completely or cut short (no index entry yet), the
+   header rewritten or not, the index entry written only on top of the complete record *)
+Theorem v1_store_prefix_ok idx dat s d :
+  v1_WInv (idx, dat) -> slot_ok s -> bytes_okl d -> zlen d < two32 -> blen dat + 4 + zlen d < two40 ->
+  let e := blen dat in
+  let dat2 := bwrite (bwrite dat e (le 4 (zlen d))) (e + 4) d in
+  let idx' := bwrite idx (v1_ioff s) (le 5 e) in
+  exists hb, v1_store1 (idx, dat) s d = Some (idx', bwrite dat2 0 hb) /\
+    forall st, In st [(idx, dat2); (idx, bwrite dat2 0 hb); (idx', dat2); (idx', bwrite dat2 0 hb)] ->
+      v1_WInv st /\
+      forall s', slot_ok s' ->
+        v1_load st s' = v1_load (idx, dat) s' \/
+        (s' = s /\ v1_load st s' = (if zlen d =? 0 then RMissing else RData d)).
+Proof.
+  intros HW Hs Hd Hm Hg. pose proof (v1_store_shape idx dat s d HW Hs Hd Hm Hg) as Hshape. cbv zeta in *.
+  destruct Hshape as [hb [Lhb [Hhb [E [Hh5 Hh4]]]]]. exists hb. split; [exact E|].
+  pose proof (zlen_nonneg d) as Hz. assert (HB1 : B1 = 65596) by reflexivity.
+  assert (HW' := HW). destruct HW' as [[G1 [G2 [_ G4]]] [Hbi [Hbd [Hli [Hent [H5 H4]]]]]]. unfold v1_dlen in *. cbn [fst snd] in *.
+  set (e := blen dat) in *. set (dat1 := bwrite dat e (le 4 (zlen d))) in *. set (dat2 := bwrite dat1 (e + 4) d) in *.
+  set (dat3 := bwrite dat2 0 hb) in *. set (idx' := bwrite idx (v1_ioff s) (le 5 e)) in *.
+  assert (T32 : two32 = 4294967296) by reflexivity.
+  assert (L1 : blen dat1 = e + 4) by (unfold dat1; rewrite blen_bwrite, zlen_le; fold e; lia).
+  assert (L2 : blen dat2 = e + 4 + zlen d) by (unfold dat2; rewrite blen_bwrite, L1; lia).
+  assert (L3 : blen dat3 = e + 4 + zlen d) by (unfold dat3; rewrite blen_bwrite, L2, Lhb; lia).
+  assert (Hb2 : bytes_ok dat2).
+  { unfold dat2. apply bytes_ok_bwrite; [unfold dat1; apply bytes_ok_bwrite; [assumption|apply le_bytes|fold e; lia]|assumption|lia]. }
+  assert (Hb3 : bytes_ok dat3) by (unfold dat3; apply bytes_ok_bwrite; [assumption|assumption|lia]).
+  assert (F2 : forall o n, o + Z.of_nat n <= e -> bread dat2 o n = bread dat o n).
+  { intros o n Hn. unfold dat2, dat1. rewrite bread_bwrite_out by (fold dat1; lia).
+    rewrite bread_bwrite_out by (rewrite ?zlen_le; fold e; lia). reflexivity. }
+  assert (F3 : forall o n, 60 <= o -> bread dat3 o n = bread dat2 o n).
+  { intros o n Ho. unfold dat3. apply bread_bwrite_out; [lia|rewrite Lhb; lia]. }
+  assert (Hsz2 : brd dat2 e 4 = zlen d).
+  { unfold dat2. rewrite brd_bwrite_out by (change (Z.of_nat 4) with 4; lia). unfold dat1.
+    apply brd_bwrite_same; [fold e; lia|rewrite pow4; lia]. }
+  assert (Hdat2 : bread dat2 (e + 4) (length d) = d) by (unfold dat2; apply bread_bwrite_same; lia).
+  (* (idx, dat2) and (idx, dat3): nothing changed for any address *)
+  destruct (v1_dat_frame_w idx dat dat2 HW) as [W2 R2]; [lia|exact Hb2|intros; apply F2; lia| | |].
+  { unfold brd. rewrite F2 by (change (Z.of_nat 8) with 8; lia). fold (brd dat 24 8). lia. }
+  { unfold brd. rewrite F2 by (change (Z.of_nat 8) with 8; lia). fold (brd dat 16 8). lia. }
+  destruct (v1_dat_frame_w idx dat dat3 HW) as [W3 R3]; [lia|exact Hb3|intros; rewrite F3 by lia; apply F2; lia| | |].
+  { fold dat3 in Hh5. rewrite Hh5, L3. lia. }
+  { fold dat3 in Hh4. rewrite L3. lia. }
+  assert (Hsum : forall dd, (forall s', slot_ok s' -> v1_rec (idx, dd) s' = v1_rec (idx, dat) s') ->
+            B1 + g_live_sum v1st v1_rec (idx, dd) <= e /\
+            forall s' a d', slot_ok s' -> v1_rec (idx, dd) s' = Some (a, d') -> a + 4 + zlen d' <= e).
+  { intros dd Rd. split.
+    - unfold g_live_sum in *. rewrite (sum_on_ext v1st v1_rec (idx, dat) (idx, dd) all_slots); [exact G4|].
+      intros s' Hs'. apply Rd. now apply in_all_slots.
+    - intros s' a d' Hs' H. rewrite Rd in H by assumption. now destruct (G2 s' a d' Hs' H) as [_ [? _]]. }
+  destruct (Hsum dat2 R2) as [S2 B2']. destruct (Hsum dat3 R3) as [S3 B3'].
+  destruct (v1_entry_w idx dat2 s d e W2 Hs Hd Hm Hg L2 Hsz2 Hdat2 G1 S2 B2') as [W4 [R4 O4]].
+  assert (Hsz3 : brd dat3 e 4 = zlen d) by (unfold brd; rewrite F3 by lia; exact Hsz2).
+  assert (Hdat3 : bread dat3 (e + 4) (length d) = d) by (rewrite F3 by lia; exact Hdat2).
+  destruct (v1_entry_w idx dat3 s d e W3 Hs Hd Hm Hg L3 Hsz3 Hdat3 G1 S3 B3') as [W5 [R5 O5]].
+  fold idx' in W4, R4, O4, W5, R5, O5.
+  assert (same : forall st, v1_WInv st -> (forall s', slot_ok s' -> v1_rec st s' = v1_rec (idx, dat) s') ->
+     v1_WInv st /\ forall s', slot_ok s' -> v1_load st s' = v1_load (idx, dat) s' \/
+        (s' = s /\ v1_load st s' = (if zlen d =? 0 then RMissing else RData d))).
+  { intros st Wst Rst. split; [exact Wst|]. intros s' Hs'. left. rewrite !v1_load_rec_w by assumption. now rewrite Rst. }
+  assert (newst : forall st, v1_WInv st -> v1_rec st s = (if zlen d =? 0 then None else Some (e, d)) ->
+     (forall s', slot_ok s' -> s' <> s -> v1_rec st s' = v1_rec (idx, dat) s') ->
+     v1_WInv st /\ forall s', slot_ok s' -> v1_load st s' = v1_load (idx, dat) s' \/
+        (s' = s /\ v1_load st s' = (if zlen d =? 0 then RMissing else RData d))).
+  { intros st Wst Rs Ro. split; [exact Wst|]. intros s' Hs'. rewrite !v1_load_rec_w by assumption.
+    destruct (slot_eq_dec s' s) as [->|Hne].
+    - right. split; [reflexivity|]. rewrite Rs. destruct (zlen d =? 0); reflexivity.
+    - left. now rewrite Ro. }
+  intros st [<-|[<-|[<-|[<-|[]]]]].
+  - apply same; assumption.
+  - apply same; assumption.
+  - apply newst; [exact W4|exact R4|]. intros s' Hs' Hne. rewrite O4 by assumption. now apply R2.
+  - apply newst; [exact W5|exact R5|]. intros s' Hs' Hne. rewrite O5 by assumption. now apply R3.
+Qed.
+
+(* the appended bytes cut short anywhere: no address changes *)
+Theorem v1_torn_append_ok idx dat t :
+  v1_WInv (idx, dat) -> bytes_okl t ->
+  v1_WInv (idx, bwrite dat (blen dat) t) /\
+  forall s, slot_ok s -> v1_load (idx, bwrite dat (blen dat) t) s = v1_load (idx, dat) s.
+Proof.
+  intros HW Ht. pose proof (zlen_nonneg t). assert (HB1 : B1 = 65596) by reflexivity.
+  assert (HW' := HW). destruct HW' as [[G1 _] [Hbi [Hbd [Hli [Hent [H5 H4]]]]]]. unfold v1_dlen in *. cbn [fst snd] in *.
+  assert (F : forall o n, o + Z.of_nat n <= blen dat -> bread (bwrite dat (blen dat) t) o n = bread dat o n).
+  { intros o n Hn. apply bread_bwrite_out; lia. }
+  destruct (v1_dat_frame_w idx dat (bwrite dat (blen dat) t) HW) as [W R].
+  - rewrite blen_bwrite. lia.
+  - apply bytes_ok_bwrite; [assumption|assumption|lia].
+  - intros. apply F. lia.
+  - unfold brd. rewrite F by (change (Z.of_nat 8) with 8; lia). fold (brd dat 24 8). rewrite blen_bwrite. lia.
+  - unfold brd. rewrite F by (change (Z.of_nat 8) with 8; lia). fold (brd dat 16 8). rewrite blen_bwrite. lia.
+  - split; [exact W|]. intros s Hs. rewrite !v1_load_rec_w by assumption. now rewrite R.
+Qed.
